@@ -112,26 +112,29 @@ def do_requests(base):
 # the real escaping expression, copied from the source at run time
 
 def real_escape_expr():
-    """Return f(text) evaluating the SOURCE TEXT of the `docstring=` argument of
-    `_wrap_method`, with the call to extract_docstring replaced by the text and the
-    `xml_source` condition by True."""
-    src = inspect.getsource(pybind_wrapper.PybindWrapper._wrap_method)
-    m = re.search(r"docstring\s*=\s*(?P<expr>.+?)\s*\n\s*if (?P<cond>[^\n]+?) else \"\",", src, re.S)
-    if not m:
-        raise RuntimeError("docstring= argument not found in pybind_wrapper.py (source changed?)")
-    expr = m.group("expr")
-    call = "self.xml_parser.extract_docstring("
-    i = expr.find(call)
-    if i < 0:
-        raise RuntimeError("extract_docstring call not found in the docstring= argument")
-    j = i + len(call)
-    depth = 1
-    while depth:
-        depth += {"(": 1, ")": -1}.get(expr[j], 0)
-        j += 1
-    expr = expr[:i] + "__text__" + expr[j:]
-    code = compile(expr, "<pybind_wrapper.py docstring expression>", "eval")
-    return (lambda text: eval(code, {"__builtins__": __builtins__}, {"__text__": text})), expr
+    """Return (f, description): f(text) is what the real `_wrap_method` appends after the py::arg list when the XML
+    look-up yields `text` — obtained END TO END (a PybindWrapper whose xml_parser.extract_docstring is replaced by a
+    constant function; the inserted segment is the difference to the output without XML), so that any rewrite of the
+    escaping expression in the source is followed without parsing it."""
+    w = PybindWrapper(module_name="m", xml_source="/nonexistent-xml")
+    w0 = PybindWrapper(module_name="m", xml_source="")
+    method = make_method("f", ["x"])
+    suffix = "<<SUFFIX>>"
+    without = w0._wrap_method(method=method, cpp_class="A", prefix="\n", suffix=suffix)
+    tail = ")" + suffix
+    if not without.endswith(tail):
+        raise RuntimeError("_wrap_method output does not end with ')' + suffix (source changed?)")
+    stem = without[:-len(tail)]
+
+    def esc(text):
+        w.xml_parser.extract_docstring = lambda *a, **k: text
+        with contextlib.redirect_stdout(io.StringIO()):
+            with_ = w._wrap_method(method=method, cpp_class="A", prefix="\n", suffix=suffix)
+        if not (with_.startswith(stem) and with_.endswith(tail)):
+            return "<<output with XML differs from output without XML outside the inserted literal>>" + with_
+        return with_[len(stem):-len(tail)]
+
+    return esc, "end-to-end through PybindWrapper._wrap_method"
 
 
 # ----------------------------------------------------------------------------
